@@ -438,10 +438,21 @@ def plan_c13(P: Planner):
 
     n = r.randint(3, 9)
     for _ in range(n):
-        k = weighted(r, [("calib", 5), ("forward", 4), ("noext", 1), ("lib", 1), ("newdep", 0.7 if len(P.deps) < 3 else 0), ("freeze", 0.6), ("reuse_calib", 1.5), ("refill", 1.2), ("userctx", 1.2)])
+        k = weighted(r, [("calib", 5), ("forward", 4), ("noext", 1), ("lib", 1), ("newdep", 0.7 if len(P.deps) < 3 else 0), ("freeze", 0.6), ("reuse_calib", 1.5), ("refill", 1.2), ("userctx", 1.2), ("calib_pair", 0.8), ("bad_call", 0.8)])
         a = P.pick(lambda a: a.quantized)
+        if k == "bad_call":
+            kind = r.choice(["group", "optimizer", "scale", "shape"])
+            op = {"op": "bad_call", "kind": kind, "seed": P.S.sub("bad", P.nops) % (1 << 30)}
+            if kind == "shape" and a:
+                op["dep"] = a.id
+            P.emit(ops, op)
+            continue
         if k == "userctx":
             userctx(ops, 0)
+            continue
+        if k == "calib_pair":
+            op = P.emit(ops, {"op": "calib_pair", "m1": r.choice([0.9, 0.5, 0.0]), "m2": r.choice([0.9, 0.3]), "s1": r.random() < 0.5, "s2": r.random() < 0.5, "body": []})
+            body(op["body"], 2)
             continue
         if k == "refill" and a and a.inputs:
             prev = copy.deepcopy(r.choice(a.inputs))
@@ -602,7 +613,7 @@ def h_save(P, ops, a, ser=None, fault=False):
     r = P.rng
     fid = P.next_fid
     P.next_fid += 1
-    op = {"op": "save", "dep": a.id, "fid": fid, "ser": ser or r.choice(["pickle_bytes", "pickle_file", "safetensors", "safetensors", "direct"])}
+    op = {"op": "save", "dep": a.id, "fid": fid, "ser": ser or r.choice(["pickle_bytes", "pickle_file", "safetensors", "safetensors", "direct", "held", "held"])}
     if fault and r.random() < 0.3:
         op["fault"] = {"kind": "write_fail", "offset": logu(r, 1, 20000), "err": r.choice(["ENOSPC", "EIO"])}
     P.emit(ops, op)
@@ -718,6 +729,12 @@ def lifecycle(P, ops, table, n, faults=False):
                 P.forward(ops, a, fresh=False, fault=False)
         elif k == "train":
             h_train(P, ops, a)
+        elif k == "bad_call":
+            kind = r.choice(["group", "optimizer", "scale", "shape"])
+            op = {"op": "bad_call", "kind": kind, "seed": P.S.sub("bad", P.nops) % (1 << 30)}
+            if kind == "shape":
+                op["dep"] = a.id
+            P.emit(ops, op)
         elif k == "trainable":
             P.emit(ops, {"op": "set_trainable", "dep": a.id, "weights": r.random() < 0.4, "biases": r.random() < 0.8})
             h_train(P, ops, a, lr_p=0.2)
@@ -774,7 +791,7 @@ def plan_c08(P):
     r = P.rng
     ops = []
     prelude(P, ops)
-    table = [("forward", 8), ("calib", 2), ("freeze", 1.5), ("saveload", 1), ("wupdate", 1.5), ("newdep", 1.5), ("train", 0.7), ("deepcopy", 0.3), ("to_cpu", 0.3), ("to_dtype", 0.4)]
+    table = [("forward", 8), ("calib", 2), ("freeze", 1.5), ("saveload", 1), ("wupdate", 1.5), ("newdep", 1.5), ("train", 0.7), ("deepcopy", 0.3), ("to_cpu", 0.3), ("to_dtype", 0.4), ("bad_call", 0.5)]
     lifecycle(P, ops, table, r.randint(3, 9), faults=bool(P.cfg.get("faults")))
     return ops
 
@@ -784,7 +801,7 @@ def plan_c09(P):
     ops = []
     P.sw["filter"] = P.sw["filter"] and r.random() < 0.5
     prelude(P, ops)
-    table = [("freeze", 6), ("probe", 3), ("deepcopy", 1.5), ("to_cpu", 1.5), ("saveload", 1), ("wupdate", 1), ("calib", 1), ("newdep", 1), ("state_dict", 0.5)]
+    table = [("freeze", 6), ("probe", 3), ("deepcopy", 1.5), ("to_cpu", 1.5), ("saveload", 1), ("wupdate", 1), ("calib", 1), ("newdep", 1), ("state_dict", 0.5), ("bad_call", 0.4)]
     lifecycle(P, ops, table, r.randint(3, 9), faults=bool(P.cfg.get("faults")))
     for a in list(P.deps.values()):
         if a.quantized:
@@ -816,16 +833,20 @@ def plan_c10(P):
         P.emit(ops, {"op": "freeze", "dep": a2.id})
         a2.frozen = True
         h_probe(P, ops, a, 1)
-        f1 = h_save(P, ops, a, ser=r.choice(["direct", "direct", "pickle_bytes"]))
+        f1 = h_save(P, ops, a, ser=r.choice(["direct", "direct", "pickle_bytes", "held", "held", "held"]))
         f2 = h_save(P, ops, a2)
-        b = h_load(P, ops, f1, target="same", restart=False)
+        b = h_load(P, ops, f1, target=r.choice(["same", "same", "requantize"]), restart=False)
         h_probe(P, ops, b, 1)
         if r.random() < 0.3:
             P.emit(ops, {"op": "to", "dep": b.id, "how": "dtype", "dtype": r.choice(DT)})
         P.emit(ops, {"op": "load", "fid": f2, "new": b.id, "into": b.id, "target": "same", "assign": r.random() < 0.2, "weights_only": True, "init": 1})
         h_probe(P, ops, a, 1)
         h_save(P, ops, a)
-    table = [("saveload", 8), ("load", 1.5), ("freeze", 1), ("probe", 1), ("wupdate", 0.7), ("calib", 0.7), ("state_dict", 0.7), ("newdep", 0.7), ("save", 0.7), ("to_dtype", 0.4), ("deepcopy", 0.3), ("to_cpu", 0.3)]
+        if r.random() < 0.6:
+            # the first checkpoint is used once more, for a third model: it must still be what was saved
+            c = h_load(P, ops, f1, target=r.choice(["same", "requantize"]), restart=False)
+            h_probe(P, ops, c, 1)
+    table = [("saveload", 8), ("load", 1.5), ("freeze", 1), ("probe", 1), ("wupdate", 0.7), ("calib", 0.7), ("state_dict", 0.7), ("newdep", 0.7), ("save", 0.7), ("to_dtype", 0.4), ("deepcopy", 0.3), ("to_cpu", 0.3), ("bad_call", 0.4)]
     lifecycle(P, ops, table, r.randint(2, 6), faults=bool(P.cfg.get("faults")))
     return ops
 
@@ -835,7 +856,7 @@ def plan_c11(P):
     ops = []
     P.sw["qinput"] = False
     deps = prelude(P, ops, calib_p=0.85)
-    table = [("train", 8), ("wupdate", 3), ("forward", 2), ("freeze", 1), ("newdep", 0.7), ("calib", 1.2), ("saveload", 0.3), ("calib_train", 1.5), ("trainable", 1.0)]
+    table = [("train", 8), ("wupdate", 3), ("forward", 2), ("freeze", 1), ("newdep", 0.7), ("calib", 1.2), ("saveload", 0.3), ("calib_train", 1.5), ("trainable", 1.0), ("bad_call", 0.8)]
     lifecycle(P, ops, table, r.randint(3, 9), faults=False)
     return ops
 
